@@ -80,7 +80,7 @@ CHECKS.update({
               'the polynomial kernels (NaR, domain errors, exact zeros, saturation, rounds-to-1 cut-offs; thorough tier checks every point of each decided cell); every one of the 2^16 encodings of each of the ten P16E1 functions is decided singly by constant propagation through the fixed-point kernel and must be the correctly rounded value (400-bit oracle; points it cannot certify are skipped and counted). These are per-input verdicts (enumeration), not a symbolic proof of the kernels.'),
         design='4/C11'),
     'C15': dict(level='other', technique='abstract interpretation (constant / interval propagation through the SLEEF-style bodies) on NaR and out-of-domain cells; constant rule on the Cody-Waite split constants; constant propagation at probe points with run-time trait resolution',
-        text=('NaR input gives NaR and out-of-domain arguments (ln/log2 of x<=0, asin/acos of |x|>1) give NaR for the 16 P32E2 functions; the three-part splits of pi, ln 2 and log10 2 used by the argument reductions are correctly rounded splits of the real constants; ULP probes: each function is evaluated by constant propagation through its whole body at about 400 definition-derived points and must stay within the stated bound of the 400-bit oracle. The ULP bounds away from those points are NOT decided (no claim).'),
+        text=('NaR input gives NaR and out-of-domain arguments (ln/log2 of x<=0, asin/acos of |x|>1) give NaR for the 16 P32E2 functions; the three-part splits of pi, ln 2 and log10 2 used by the argument reductions are correctly rounded splits of the real constants; ULP probes: each function is evaluated by constant propagation through its whole body at about 3500 points (quick; more in the thorough tier) - definition-derived arguments, a structured sweep of each documented domain (binades x fraction patterns x signs) and the encodings next to every literal the function compares its argument with - and must stay within the stated bound of the 400-bit oracle. The ULP bounds away from those points are NOT decided (no claim).'),
         design='4/C15'),
 })
 
@@ -144,7 +144,7 @@ def main():
         ],
         'checks': checks,
         'not_applicable': na,
-        'notes': 'Static analysis only. Each check re-extracts facts from /repo\'s current working tree into a fresh temporary target dir. Known findings: /verif/known_findings.txt.',
+        'notes': 'Static analysis only. Each check re-extracts facts from /repo\'s current working tree into a fresh temporary target dir. Known findings: /verif/known_findings.txt. The cell rules have a soft wall-clock budget (VERIF_SOFT_BUDGET_S, default 900 s quick / 10800 s thorough): cells not reached within it are reported as not decided, never as alarms.',
     }
     with open(os.path.join(HERE, 'MANIFEST.json'), 'w') as f:
         json.dump(m, f, indent=1)
